@@ -19,6 +19,7 @@ package route
 //@ define leafOK(l *baseLeaf) bool = l.handler != nil && l.route != nil && l.segment != nil && l.parent != nil
 
 // The canonical text of a segment / route (C06 gives the rendering its meaning; here only its shape matters).
+//@ uninterpreted reGroups(re *regexp.Regexp) int
 //@ uninterpreted segStr(s *Segment) string
 //@ uninterpreted routeStr(r *Route) string
 //@ axiom segStrShape: forall s *Segment :: len(segStr(s)) >= 1 && segStr(s)[0] == '/'
@@ -31,7 +32,7 @@ package route
 //@     (forall n *baseTree :: live(n) ==> nodeOK(n)) &&
 //@     (forall l *baseLeaf :: live(l) ==> leafOK(l)) &&
 //@     (forall s *staticTree :: live(s) ==> s.segment != nil) &&
-//@     (forall x *regexTree :: live(x) ==> x.regexp != nil) &&
+//@     (forall x *regexTree :: live(x) ==> x.regexp != nil && reGroups(x.regexp) == len(x.binds)) &&
 //@     (forall y *regexLeaf :: live(y) ==> y.regexp != nil) &&
 //@     (forall g *Segment :: live(g) ==> segOK(g)) &&
 //@     (forall q *Route :: live(q) ==> routeOK(q))
@@ -47,28 +48,102 @@ package route
 //@   ensures res == routeStr(r) && routeOK(r)
 
 // ---------------------------------------------------------------------------
+// C01 / C09: which leaf the matcher answers (declarative first-success search)
+// ---------------------------------------------------------------------------
+
+//@ define style(t Tree) int = ite(dyn(t) == type(*staticTree), 1, ite(dyn(t) == type(*regexTree), 2,
+//@     ite(dyn(t) == type(*placeholderTree), 3, ite(dyn(t) == type(*matchAllTree), 4, 0))))
+//@ define leafStyle(l Leaf) int = ite(dyn(l) == type(*staticLeaf), 1, ite(dyn(l) == type(*regexLeaf), 2,
+//@     ite(dyn(l) == type(*placeholderLeaf), 3, ite(dyn(l) == type(*matchAllLeaf), 4, 0))))
+//@ define leafBase(l Leaf) *baseLeaf = ite(dyn(l) == type(*staticLeaf), &l.(*staticLeaf).baseLeaf,
+//@     ite(dyn(l) == type(*regexLeaf), &l.(*regexLeaf).baseLeaf,
+//@     ite(dyn(l) == type(*placeholderLeaf), &l.(*placeholderLeaf).baseLeaf, &l.(*matchAllLeaf).baseLeaf)))
+//@ define nodeOf(t Tree) *baseTree = ite(dyn(t) == type(*baseTree), t.(*baseTree),
+//@     ite(dyn(t) == type(*staticTree), &t.(*staticTree).baseTree,
+//@     ite(dyn(t) == type(*regexTree), &t.(*regexTree).baseTree,
+//@     ite(dyn(t) == type(*placeholderTree), &t.(*placeholderTree).baseTree, &t.(*matchAllTree).baseTree))))
+
+// What the regexp library answers (assumed, see trusted/regexp.spec): number of submatches (0 = no match) and their text.
+//@ uninterpreted reLen(re *regexp.Regexp, s string) int
+//@ uninterpreted reSub(re *regexp.Regexp, s string, i int) string
+//@ uninterpreted reMatch(re *regexp.Regexp, s string) bool
+//@ uninterpreted hdrGet(h http.Header, k string) string
+
+// A header matcher admits a request iff every constrained header is present, non-empty and matched.
+//@ define hmMatch(m *HeaderMatcher, h http.Header) bool =
+//@     forall name string :: has(m.matches, name) ==> hdrGet(h, name) != "" && reMatch(m.matches[name], hdrGet(h, name))
+//@ define hdrOK(l *baseLeaf, h http.Header) bool = l.headerMatcher == nil || hmMatch(l.headerMatcher, h)
+
+// A leaf admits the last segment of a path.
+//@ define leafAdmits(l Leaf, seg string, h http.Header) bool = hdrOK(leafBase(l), h) &&
+//@     ite(dyn(l) == type(*staticLeaf), l.(*staticLeaf).literals == seg,
+//@     ite(dyn(l) == type(*regexLeaf), reLen(l.(*regexLeaf).regexp, seg) >= len(l.(*regexLeaf).binds) + 1, true))
+
+// First leaf of n, in list order from index k, that admits seg.
+//@ define firstLeaf(n *baseTree, seg string, h http.Header, k int) Leaf =
+//@     ite(k < 0 || k >= len(n.leaves), nil, ite(leafAdmits(n.leaves[k], seg, h), n.leaves[k], firstLeaf(n, seg, h, k + 1)))
+
+// Position of the next '/' (what strings.Index(s, "/") answers; assumed, see trusted/strings.spec).
+//@ uninterpreted idxSlash(s string) int
+//@ uninterpreted countSlash(s string) int
+//@ uninterpreted trimLeftSlash(s string) string
+
+// A subtree admits one (inner) segment. For a regex segment: its anchored expression matches.
+//@ define treeAdmits(st Tree, seg string) bool = ite(style(st) == 1, segStr(nodeOf(st).segment)[1:] == seg,
+//@     ite(style(st) == 2, reLen(st.(*regexTree).regexp, seg) >= 1, style(st) == 3))
+
+// The trailing match-all leaf of a node is tried only after every subtree: capture limit and headers.
+//@ define specTail(n *baseTree, path string, next int, h http.Header) Leaf =
+//@     ite(len(n.leaves) > 0 && leafStyle(n.leaves[len(n.leaves) - 1]) == 4 &&
+//@         (n.leaves[len(n.leaves) - 1].(*matchAllLeaf).capture <= 0 ||
+//@          n.leaves[len(n.leaves) - 1].(*matchAllLeaf).capture >= countSlash(path[next - 1:]) + 1) &&
+//@         hdrOK(leafBase(n.leaves[len(n.leaves) - 1]), h), n.leaves[len(n.leaves) - 1], nil)
+
+// Search from cursor `next`: last segment -> leaves in list order; otherwise subtrees in list order, a deeper
+// failure falling back to the next alternative.
+//@ define specNext(n *baseTree, path string, next int, h http.Header) Leaf =
+//@     ite(idxSlash(path[next:]) == -1, firstLeaf(n, path[next:], h, 0),
+//@         specSub(n, path, path[next:next + idxSlash(path[next:])], next + idxSlash(path[next:]) + 1, h, 0))
+//@ define specSub(n *baseTree, path string, seg string, next int, h http.Header, k int) Leaf =
+//@     ite(k < 0 || k >= len(n.subtrees), specTail(n, path, next, h),
+//@     ite(style(n.subtrees[k]) == 4,
+//@         ite(specAll(n.subtrees[k].(*matchAllTree), path, next, h, 1) != nil,
+//@             specAll(n.subtrees[k].(*matchAllTree), path, next, h, 1), specTail(n, path, next, h)),
+//@     ite(treeAdmits(n.subtrees[k], seg) && specNext(nodeOf(n.subtrees[k]), path, next, h) != nil,
+//@         specNext(nodeOf(n.subtrees[k]), path, next, h), specSub(n, path, seg, next, h, k + 1))))
+// A match-all in the middle of a route prefers the fewest captured segments, up to its capture limit.
+//@ define specAll(t *matchAllTree, path string, next int, h http.Header, captured int) Leaf =
+//@     ite(!(t.capture <= 0 || t.capture >= captured), nil,
+//@     ite(specNext(&t.baseTree, path, next, h) != nil, specNext(&t.baseTree, path, next, h),
+//@     ite(idxSlash(path[next:]) == -1, nil, specAll(t, path, next + idxSlash(path[next:]) + 1, h, captured + 1))))
+
+// ---------------------------------------------------------------------------
 // C07: matching never panics
 // ---------------------------------------------------------------------------
 
 //@ func (*baseTree).Match
-//@   props C07
+//@   props C07 C01
 //@   requires treeWF()
+//@   ensures[C01] result0 == specNext(t, trimLeftSlash(path), 0, header) && result2 == (result0 != nil)
 //@   modifies Segment.str, Segment.strOnce.fired
 //@   ensures treeWF()
 //@   ensures result2 ==> result0 != nil && result1 != nil && fresh(result1)
 //@   ensures !result2 ==> result0 == nil && result1 == nil
 
 //@ func (*baseTree).matchNextSegment
-//@   props C07
+//@   props C07 C01
 //@   requires treeWF()
+//@   ensures[C01] result0 == specNext(t, path, next, header) && result1 == (result0 != nil)
 //@   requires 0 <= next && next <= len(path) && params != nil
 //@   modifies params[*], Segment.str, Segment.strOnce.fired
 //@   ensures treeWF()
 //@   ensures result1 ==> result0 != nil
 
 //@ func (*baseTree).matchSubtree
-//@   props C07
+//@   props C07 C01
 //@   requires treeWF()
+//@   ensures[C01] result0 == specSub(t, path, segment, next, header, 0) && result1 == (result0 != nil)
+//@   loop 0 invariant[C01] specSub(t, path, segment, next, header, 0) == specSub(t, path, segment, next, header, rangeindex + 1)
 //@   requires 1 <= next && next <= len(path) && params != nil
 //@   modifies params[*], Segment.str, Segment.strOnce.fired
 //@   ensures treeWF()
@@ -76,15 +151,18 @@ package route
 //@   ensures result1 ==> result0 != nil
 
 //@ func (*baseTree).matchLeaf
-//@   props C07
+//@   props C07 C01
 //@   requires treeWF() && params != nil
-//@   modifies params[*], Segment.str, Segment.strOnce.fired
-//@   ensures treeWF()
+//@   modifies params[*]
 //@   ensures result1 ==> result0 != nil
+//@   ensures[C01] result0 == firstLeaf(t, segment, header, 0) && result1 == (result0 != nil)
+//@   loop 0 invariant[C01] firstLeaf(t, segment, header, 0) == firstLeaf(t, segment, header, rangeindex + 1)
 
 //@ func (*matchAllTree).matchAll
-//@   props C07
+//@   props C07 C01
 //@   requires treeWF()
+//@   ensures[C01] result0 == specAll(t, path, next, header, 1) && result1 == (result0 != nil)
+//@   loop 0 invariant[C01] specAll(t, path, old(next), header, 1) == specAll(t, path, next, header, captured)
 //@   requires 0 <= next && next <= len(path) && params != nil
 //@   modifies params[*], Segment.str, Segment.strOnce.fired
 //@   ensures treeWF()
@@ -92,22 +170,27 @@ package route
 //@   loop 0 invariant 0 <= next && next <= len(path) && treeWF()
 
 //@ func (*matchAllLeaf).matchAll
-//@   props C07
+//@   props C07 C01 C09
 //@   requires treeWF()
+//@   ensures[C01,C09] result == ((l.capture <= 0 || l.capture >= countSlash(path[next - 1:]) + 1) && hdrOK(&l.baseLeaf, header))
 //@   requires 1 <= next && next <= len(path) && params != nil
 //@   modifies params[*], Segment.str, Segment.strOnce.fired
 //@   ensures treeWF()
 
 //@ func (*regexTree).match
-//@   props C07
+//@   props C07 C01
 //@   requires treeWF() && params != nil
 //@   modifies params[*]
+//@   ensures[C01] result == (reLen(t.regexp, segment) == len(t.binds) + 1)
 
 //@ func (*regexLeaf).match
-//@   props C07
+//@   props C07 C01 C09
 //@   requires treeWF() && params != nil
 //@   modifies params[*]
+//@   ensures[C01,C09] result == (reLen(l.regexp, segment) >= len(l.binds) + 1 && hdrOK(&l.baseLeaf, header))
 
 //@ func (*HeaderMatcher).Match
 //@   props C07 C09
 //@   modifies nothing
+//@   ensures[C09] result == hmMatch(m, header)
+//@   loop 0 invariant[C09] forall name string :: visited(name) ==> has(m.matches, name) && hdrGet(header, name) != "" && reMatch(m.matches[name], hdrGet(header, name))
